@@ -764,6 +764,35 @@ func lemmaCreateThenMapQueue(data []byte, cap uint32) {
 //@   loop 0 invariant forall j in [0, rangeindex + 1): config.BufferSliceSizes[j].Size <= config.ShareMemoryBufferCap && config.BufferSliceSizes[j].Percent <= sum
 //@   modifies nothing
 
+// C18: the other two writers of the event connection follow the same try-lock discipline
+//@ func (*Session).hotRestart
+//@   requires s != nil
+//@   ghost var mine bool = false
+//@   at call? sync/atomic.CompareAndSwapUint32#0 ghost[C18] mine := r0
+//@   at call? (*Session).writeEventData#0 check[C18] mine
+//@   at call? (*Session).writeEventData#1 check[C18] mine
+//@   at call? (*Session).writeEventData#2 check[C18] mine
+//@   at call? sync/atomic.StoreUint32#0 check[C18] mine && a1 == 0
+//@   at call? sync/atomic.StoreUint32#0 ghost[C18] mine := false
+//@   exit[C18] !mine
+//@   modifies heap
+
+// send: header and body of one queued event are written under ONE hold of the lock
+//@ func (*Session).send
+//@   requires s != nil
+//@   ghost var mine bool = false
+//@   at call? sync/atomic.CompareAndSwapUint32#0 ghost[C18] mine := r0
+//@   at call? (*Session).writeEventData#0 check[C18] mine
+//@   at call? (*Session).writeEventData#1 check[C18] mine
+//@   at call? (*Session).writeEventData#2 check[C18] mine
+//@   at call? (*Session).writeEventData#3 check[C18] mine
+//@   at call? sync/atomic.StoreUint32#0 check[C18] mine && a1 == 0
+//@   at call? sync/atomic.StoreUint32#0 ghost[C18] mine := false
+//@   exit[C18] !mine
+//@   loop 0 invariant[C18] !mine
+//@   loop 1 invariant[C18] !mine
+//@   modifies heap
+
 // ---------------------------------------------------------------------------
 // C15: the stream pool (session_manager.go)
 // ---------------------------------------------------------------------------
@@ -1400,6 +1429,18 @@ func lemmaUpdateThenNew(s *bufferSlice) {
 //@   exit[C05] (won ==> handed == 1) && (!won ==> handed == 0)
 //@   ensures  result == nil
 //@   modifies heap
+// C18 (writers never interleave inside an event): s.writing is a try-lock; the thread-local ghost `mine` is
+// set by a winning CAS and cleared by the releasing store. An event is written to the connection only while
+// mine, the lock is released only while mine, and it is not held at any return. With CAS atomic this gives
+// "writing == 1 iff exactly one thread is between its winning CAS and its store" under every schedule.
+//@   ghost var mine bool = false
+//@   at call? sync/atomic.CompareAndSwapUint32#0 ghost[C18] mine := r0
+//@   at call? (*Session).writeEventData#0 check[C18] mine
+//@   at call? (*Session).writeEventData#1 check[C18] mine
+//@   at call? (*Session).writeEventData#2 check[C18] mine
+//@   at call? sync/atomic.StoreUint32#0 check[C18] mine && a1 == 0
+//@   at call? sync/atomic.StoreUint32#0 ghost[C18] mine := false
+//@   exit[C18] !mine
 
 //@ func (*Session).writeEventData
 //@   modifies heap
